@@ -43,7 +43,7 @@ LEVEL_NOTE = (
     "bounded: 7 late-type kinds, 7 expression contexts on one triangle mesh, histories of at most ~300 steps"
 )
 RULE = (
-    "the first cases enumerate (group of 14 algorithm entries x late-type kind) with the pattern `all` = instantiate "
+    "the first cases enumerate (group of 33 algorithm entries x late-type kind) with the pattern `all` = instantiate "
     "and keep every class of the group, use every entry on old types in all its contexts, register the kind, use "
     "fresh and kept instances on the late type in all contexts, use on old types again (grouping shuffled by the "
     "seed; every entry meets every kind); the thorough tier adds every (entry, kind, pattern) on its own with the "
@@ -66,8 +66,8 @@ WORKERS = {"quick": 16, "thorough": 16}
 EVAL_COUNTER = "u_steps_compared"
 FLOORS = {
     "quick": {
-        "histories": 70,
-        "enumerated_histories": 49,
+        "histories": 40,
+        "enumerated_histories": 21,
         "random_histories": 15,
         "u_steps_compared": 9000,
         "u_new_compared": 5000,
@@ -76,7 +76,7 @@ FLOORS = {
     },
     "thorough": {
         "histories": 600,
-        "enumerated_histories": 350,
+        "enumerated_histories": 320,
         "random_histories": 200,
         "u_steps_compared": 15000,
         "u_new_compared": 8000,
@@ -271,6 +271,12 @@ def show_for(steps, alg):
     return " ".join(out)
 
 
+def site(o):
+    """module.function of the failing typecode-table lookup (part of the mechanism key)."""
+    w = o.get("where") or ["?", "?"]
+    return f"{str(w[0]).removesuffix('.py')}.{w[1]}"
+
+
 def outcome_key(o):
     if o["status"] == "ok":
         return ("ok", o.get("canon"))
@@ -374,7 +380,7 @@ def judge(ctx, steps, label):
         detail = {"history": steps, "step": pos, "observed": t, "type_first": r, "label": label}
         if tk != rk:
             if t.get("table"):
-                failure = f"stale-table-{how}"
+                failure = f"stale-table-{how}@{site(t)}"
             elif t["status"] == "ok" and r["status"] == "ok":
                 failure = f"result-differs-{how}"
             else:
@@ -397,7 +403,7 @@ def judge(ctx, steps, label):
         if new and r.get("table"):
             ctx.count("ref_new_table_lookup_failed")
             ctx.violation(
-                f"C20/{base}/no-dispatch-even-type-first{'-held-instance' if held else ''}/{alg}",
+                f"C20/{base}/no-dispatch-even-type-first{'-held-instance' if held else ''}@{site(r)}/{alg}",
                 f"{show([st])} dies in a typecode table lookup although the type was registered before any algorithm use: "
                 f"{brief(r)}; type-first history [{show_for(ref_steps, alg)}]",
                 {"history": ref_steps, "step": ref_of[pos], "observed": r, "label": label},
@@ -428,7 +434,7 @@ def setup(ctx):
         raise RuntimeError("driver and check disagree about the late-type kinds")
 
 
-GROUP = 14
+GROUP = 33
 
 
 def enumeration(cat, tier, seed):
